@@ -22,7 +22,7 @@ for h in commits:
     if rc != 0:
         rc2, files = sh("git diff --name-only --diff-filter=U", "/repo")
         fl = files.split()
-        bad = [f for f in fl if not f.endswith("mod.rs")]
+        bad = [f for f in fl if not (f.endswith("mod.rs") or f.startswith("src/verif/"))]
         if bad:
             print("CONFLICT needing manual work:", bad, "commit", h); sys.exit(1)
         sh("python3 /verif/lib/union_resolve.py " + " ".join(fl), "/repo", check=True)
